@@ -9,7 +9,7 @@ import subprocess
 
 from . import engine
 
-PROPS_WITH_SMOKE = ['c01']
+PROPS_WITH_SMOKE = ['c01', 'c02', 'c03', 'c04', 'c05', 'c06', 'c07', 'c08', 'c09', 'c10', 'c11', 'c12', 'c15', 'c16', 'c17', 'c18', 'c19', 'c20']
 
 
 def determinism(nseeds=40, props=None, jobs=None):
